@@ -37,6 +37,11 @@ func (c *Concat) Init(n *onnx.NodeProto) error {
 
 // Apply applies the concat operator.
 func (c *Concat) Apply(inputs []tensor.Tensor) ([]tensor.Tensor, error) {
+	rank := len(inputs[0].Shape())
+	if c.axis < -rank || c.axis >= rank {
+		return nil, ops.ErrAxisOutOfRange(rank, rank, c.axis)
+	}
+
 	// Not sure why this is possible, but minimum number of inputs is said to be 1.
 	if len(inputs) == 1 {
 		return inputs, nil
@@ -44,7 +49,7 @@ func (c *Concat) Apply(inputs []tensor.Tensor) ([]tensor.Tensor, error) {
 
 	axis := c.axis
 	if axis < 0 {
-		axis = len(inputs[0].Shape()) + axis
+		axis = rank + axis
 	}
 
 	out, err := tensor.Concat(axis, inputs[0], inputs[1:]...)
